@@ -157,6 +157,17 @@ func checkRestoreBeforeNextToken(p *Prog, r *Result, pkg *packages.Package, rule
 			}
 			ok, _ := g.MustPass(b, idx, g.Exit, hit, skip)
 			how := "every path from the restore to the return advances the lexer, reports an error, or has tested that the token in hand is not a newline"
+			// a deferred restore runs when the function returns: nothing of this function comes after it
+			deferred := false
+			inspectNoLit(fd.Body, func(m ast.Node) bool {
+				if ds, isDefer := m.(*ast.DeferStmt); isDefer && ds.Call == c {
+					deferred = true
+				}
+				return true
+			})
+			if deferred {
+				ok = false
+			}
 			if !ok && len(callSites[fo]) > 0 {
 				// the closing token may be left for the caller: then every caller must read on after the call
 				all := true
